@@ -6,6 +6,7 @@ import (
 	"fmt"
 	"os"
 	"path/filepath"
+	"sort"
 	"strings"
 	"sync"
 	"time"
@@ -125,9 +126,14 @@ func c15Gen(r *rng.Rand, i int, tier string) interface{} {
 			in.Cols = append(in.Cols, c15Col{nm, c15Types[r.Intn(len(c15Types))]})
 		}
 	}
-	// writes inside the file's year; index 0 is reachable only for 1D on Jan 1
-	y0 := time.Date(in.Year, 1, 1, 0, 0, 0, 0, time.UTC).Unix()
-	y1 := time.Date(in.Year+1, 1, 1, 0, 0, 0, 0, time.UTC).Unix()
+	// writes: mostly inside the creation year; in ~35% of the cases some records fall into one or two OTHER
+	// years (next, previous, next-but-one), each creating that year's file from the catalog's template.
+	// Index 0 is reachable only for 1D on Jan 1.
+	multiYear := r.Chance(45)
+	yearSpan := func(y int) (int64, int64) {
+		return time.Date(y, 1, 1, 0, 0, 0, 0, time.UTC).Unix(), time.Date(y+1, 1, 1, 0, 0, 0, 0, time.UTC).Unix()
+	}
+	y0, y1 := yearSpan(in.Year)
 	nw := r.Intn(5)
 	if len(in.Cols) > 200 && r.Chance(50) {
 		nw = 0
@@ -136,11 +142,21 @@ func c15Gen(r *rng.Rand, i int, tier string) interface{} {
 		nw = 2
 	}
 	for w := 0; w < nw; w++ {
+		y0, y1 := y0, y1
+		otherYear := false
+		if multiYear && r.Chance(60) {
+			otherYear = true
+			y0, y1 = yearSpan(in.Year + []int{1, 1, 1, -1, 2}[r.Intn(5)])
+		}
 		var ep int64
 		switch k := r.Intn(100); {
 		case clean && in.TF == "1D":
 			ep = y0 + 86400 + r.Range(0, y1-y0-86401)
-		case k < 30:
+		case otherYear && k < 50 && !clean:
+			ep = y0 + r.Range(0, 3599) // the first interval(s) of that year
+		case otherYear && k < 50:
+			ep = y0 + 86400 + r.Range(0, 3599)
+		case k < 30 && !clean:
 			ep = y0 + r.Range(0, 86399) // Jan 1
 		case k < 40:
 			ep = y1 - 1 - r.Range(0, 3600) // last interval
@@ -183,18 +199,20 @@ type c15Run struct {
 	Data []byte `json:"data"`
 }
 type c15WObs struct {
+	Year  int    `json:"year"`
 	Index int64  `json:"index"`
 	Code  int    `json:"code"`
 	Rec   []byte `json:"rec,omitempty"`
 }
 type c15Obs struct {
-	CreateCode int       `json:"create_code"`
-	Created    *c15Tbi   `json:"created,omitempty"`
-	Hdr0       []c15Run  `json:"hdr0,omitempty"`
-	Writes     []c15WObs `json:"writes,omitempty"`
-	Hdr1       []c15Run  `json:"hdr1,omitempty"`
-	ReloadCode int       `json:"reload_code"`
-	Reloaded   *c15Tbi   `json:"reloaded,omitempty"`
+	CreateCode int              `json:"create_code"`
+	Created    *c15Tbi          `json:"created,omitempty"`
+	Hdr0       []c15Run         `json:"hdr0,omitempty"`
+	Writes     []c15WObs        `json:"writes,omitempty"`
+	Hdr1       []c15Run         `json:"hdr1,omitempty"`  // creation-year file after the writes
+	Files      map[int][]c15Run `json:"files,omitempty"` // every year file after the writes
+	ReloadCode int              `json:"reload_code"`
+	Reloaded   *c15Tbi          `json:"reloaded,omitempty"`
 }
 
 func c15TbiOf(t *io.TimeBucketInfo) *c15Tbi {
@@ -235,6 +253,19 @@ func c15HexChunks(b []byte) string {
 			j = len(b)
 		}
 		l = append(l, cq.Hex(b[i:j]))
+	}
+	return cq.List(l)
+}
+
+func c15CoqFiles(m map[int][]c15Run) string {
+	var ys []int
+	for y := range m {
+		ys = append(ys, y)
+	}
+	sort.Ints(ys)
+	var l []string
+	for _, y := range ys {
+		l = append(l, cq.Tuple(cq.Z(int64(y)), c15CoqRuns(m[y])))
 	}
 	return cq.List(l)
 }
@@ -399,7 +430,8 @@ func c15RunCase(raw json.RawMessage) (res Result, err error) {
 		recLen := int(created.GetRecordLength())
 		for _, w := range in.Writes {
 			t := time.Unix(w.Epoch, 0).UTC()
-			wo := c15WObs{Index: io.TimeToIndex(t, tf.Duration)}
+			wo := c15WObs{Year: t.Year(), Index: io.TimeToIndex(t, tf.Duration)}
+			yearPath := filepath.Join(root, "SYM", in.TF, "ATTR", fmt.Sprintf("%d.bin", t.Year()))
 			if in.TF == "1D" && t.Month() == time.January && t.Day() == 1 {
 				jan1 = true
 			}
@@ -436,7 +468,7 @@ func c15RunCase(raw json.RawMessage) (res Result, err error) {
 			if in.Variable {
 				// the 24-byte {index, offset, len} record the real code left at the primary offset
 				off := io.IndexToOffset(wo.Index, 24)
-				if f, e := os.Open(binPath); e == nil {
+				if f, e := os.Open(yearPath); e == nil {
 					rec := make([]byte, 24)
 					if off >= 0 {
 						n, _ := f.ReadAt(rec, off)
@@ -445,9 +477,9 @@ func c15RunCase(raw json.RawMessage) (res Result, err error) {
 					f.Close()
 					wo.Rec = rec
 				}
-				coqWrites = append(coqWrites, cq.Tuple("true", cq.Z(wo.Index), c15HexChunks(c15CutZeros(wo.Rec)), cq.Nat(len(wo.Rec))))
+				coqWrites = append(coqWrites, cq.Tuple("true", cq.Z(int64(wo.Year)), cq.Z(wo.Index), c15HexChunks(c15CutZeros(wo.Rec)), cq.Nat(len(wo.Rec))))
 			} else {
-				coqWrites = append(coqWrites, cq.Tuple("false", cq.Z(wo.Index), c15HexChunks(c15CutZeros(payload)), cq.Nat(len(payload))))
+				coqWrites = append(coqWrites, cq.Tuple("false", cq.Z(int64(wo.Year)), cq.Z(wo.Index), c15HexChunks(c15CutZeros(payload)), cq.Nat(len(payload))))
 			}
 			obs.Writes = append(obs.Writes, wo)
 		}
@@ -456,6 +488,18 @@ func c15RunCase(raw json.RawMessage) (res Result, err error) {
 			return res, e
 		}
 		obs.Hdr1 = c15Runs(h1)
+		// every year file of the bucket (new year files are created by the writes)
+		obs.Files = map[int][]c15Run{}
+		if ents, e := os.ReadDir(filepath.Dir(binPath)); e == nil {
+			for _, en := range ents {
+				var y int
+				if _, e := fmt.Sscanf(en.Name(), "%d.bin", &y); e == nil && strings.HasSuffix(en.Name(), ".bin") {
+					if hy, e := c15ReadHeader(filepath.Join(filepath.Dir(binPath), en.Name())); e == nil {
+						obs.Files[y] = c15Runs(hy)
+					}
+				}
+			}
+		}
 		// ---- restart ----
 		func() {
 			defer func() {
@@ -493,7 +537,7 @@ func c15RunCase(raw json.RawMessage) (res Result, err error) {
 		cq.F("o_reclen", cq.Z(int64(rl.RecLen))), cq.F("o_names", cq.List(names)), cq.F("o_types", cq.List(types)))
 	res.Coq = cq.Rec(cq.F("k_tf", cq.Z(int64(tf.Duration))), cq.F("k_descr", cq.Hex(in.Descr)), cq.F("k_year", cq.Z(int64(int16(in.Year)))),
 		cq.F("k_dsv", cq.List(coqDsv)), cq.F("k_rt", cq.Z(int64(rt))), cq.F("k_writes", cq.List(coqWrites)),
-		cq.F("k_create_code", cq.Nat(obs.CreateCode)), cq.F("k_hdr0", c15CoqRuns(obs.Hdr0)), cq.F("k_hdr1", c15CoqRuns(obs.Hdr1)),
+		cq.F("k_create_code", cq.Nat(obs.CreateCode)), cq.F("k_hdr0", c15CoqRuns(obs.Hdr0)), cq.F("k_hdr1", c15CoqFiles(obs.Files)),
 		cq.F("k_reload_code", cq.Nat(obs.ReloadCode)), cq.F("k_reload", coqReload))
 
 	// ---- executable mirrors of Header.creatable / writes_ok (independent of the code under test) ----
@@ -567,8 +611,11 @@ func c15RunCase(raw json.RawMessage) (res Result, err error) {
 			res.Holds, res.Detail = false, fmt.Sprintf("record length/element count changed: %d/%d, created %d/%d", g.RecLen, g.NElems, c.RecLen, c.NElems)
 		}
 	}
-	if !res.Holds && namesOK && countOK && jan1 && obs.CreateCode == 0 {
-		res.Class = "daily-jan1-write" // the only known finding class left (names / column count are fixed in /repo)
+	// the only known finding class left: a daily index-0 record long enough to reach the element type bytes
+	// (type byte i lies at 33080+i, the record starts at 37024-recLen)
+	if !res.Holds && namesOK && countOK && jan1 && obs.CreateCode == 0 && obs.Created != nil &&
+		obs.Created.RecLen+nElems > 3944 {
+		res.Class = "daily-jan1-write"
 	}
 	// ---- tags ----
 	res.Tags = []string{"tf:" + in.TF, fmt.Sprintf("create=%d", obs.CreateCode), fmt.Sprintf("reload=%d", obs.ReloadCode),
@@ -577,7 +624,8 @@ func c15RunCase(raw json.RawMessage) (res Result, err error) {
 		on  bool
 		tag string
 	}{{in.Variable, "variable"}, {!in.Variable, "fixed"}, {res.InDomain, "in-guard"}, {!namesOK, "unstorable-name"}, {!descrOK, "unstorable-descr"},
-		{!countOK, "too-many-elements"}, {jan1, "jan1-daily-write"}, {!idxOK, "index-0-write"}} {
+		{!countOK, "too-many-elements"}, {jan1, "jan1-daily-write"}, {!idxOK, "index-0-write"},
+		{len(obs.Files) > 1, "new-year-file"}, {len(obs.Files) > 2, "two-new-year-files"}} {
 		if t.on {
 			res.Tags = append(res.Tags, t.tag)
 		}
@@ -599,7 +647,8 @@ func init() {
 		Rule: "schemas: timeframe 1Min/5Min/15Min/1H/1D (35% forced 1D), 25% variable, year 1990-2034, 0-8 columns over the 12 fixed-width types " +
 			"(40% clean; otherwise names of boundary length 30-34, long, NUL at an edge, empty, multi-byte, 'Epoch', 7% 57-64 string16 columns, " +
 			"3% 1021-1027 columns), descriptions around 256 bytes; 0-4 single-record writes through Writer.WriteRecords + WAL flush at random " +
-			"instants of the file's year, 30% on Jan 1, 10% in the last hour; distinct = distinct input JSON; non-trivial = storable schema inside the " +
+			"instants of the file's year (35% of the cases: some records in the next / previous / next-but-one year, creating new year files), " +
+			"30% on Jan 1, 10% in the last hour; distinct = distinct input JSON; non-trivial = storable schema inside the " +
 			"theorem's guard with >=2 elements and >=1 write",
 		Gen: c15Gen,
 		Run: c15RunCase,
